@@ -1198,6 +1198,37 @@ M("C12.grpc_http_status_range_off", ["C12"], "emitter/otlp/src/client.rs",
   """                            if !(http_status >= 200 && http_status < 300) {""",
   """                            if !(http_status >= 200 && http_status <= 300) {""", "C12.R5:status")
 
+M('sweep11.ts.len_le_20', ['C15'], 'core/src/timestamp.rs',
+  'if fmt.len() > 30 || fmt.len() < 20 {',
+  'if fmt.len() > 30 || fmt.len() <= 20 {', 'C15.R4:rfc3339-length-window')
+M('sweep11.ts.len_ge_30', ['C15'], 'core/src/timestamp.rs',
+  'if fmt.len() > 30 || fmt.len() < 20 {',
+  'if fmt.len() >= 30 || fmt.len() < 20 {', 'C15.R4:rfc3339-length-window')
+M('sweep11.ts.len_and', ['C15'], 'core/src/timestamp.rs',
+  'if fmt.len() > 30 || fmt.len() < 20 {',
+  'if fmt.len() > 30 && fmt.len() < 20 {', 'C15.R4:rfc3339-length-window')
+M('sweep11.ts.month_feb_div', ['C15'], 'core/src/timestamp.rs',
+  '            31 * 86400,  // Feb',
+  '            31 / 86400,  // Feb', 'C15.R5:month-table')
+M('sweep11.ts.month_jul_day', ['C15'], 'core/src/timestamp.rs',
+  '            181 * 86400, // Jul',
+  '            182 * 86400, // Jul', 'C15.R5:month-table')
+M('sweep11.ts.leap_fast_false', ['C15'], 'core/src/timestamp.rs',
+  '                leaps -= 1;\n                is_leap = true;',
+  '                leaps -= 1;\n                is_leap = false;', 'C15.R5:leap-flag-table')
+M('sweep11.ts.leap_400_false', ['C15'], 'core/src/timestamp.rs',
+  '            if rem == 0 {\n                is_leap = true;',
+  '            if rem == 0 {\n                is_leap = false;', 'C15.R5:leap-flag-table')
+M('sweep11.ts.leap_century_true', ['C15'], 'core/src/timestamp.rs',
+  '                if rem == 0 {\n                    is_leap = false;',
+  '                if rem == 0 {\n                    is_leap = true;', 'C15.R5:leap-flag-table')
+M('sweep11.ts.leap_mod4_ne', ['C15'], 'core/src/timestamp.rs',
+  '                    is_leap = rem == 0;',
+  '                    is_leap = rem != 0;', 'C15.R5:leap-flag-table')
+M('sweep11.ts.leap_tz_gt2', ['C15'], 'core/src/timestamp.rs',
+  'if (year - 68).trailing_zeros() >= 2 {',
+  'if (year - 68).trailing_zeros() > 2 {', 'C15.R5:leap-flag-table')
+
 # ---- round 6 (own probing of the blocking entry points): Trigger, send_or_wait, callbacks ------------------------------------------
 M("C07.wait_zero_timeout_reports_flushed", ["C07"], "batcher/src/sync.rs",
   "            if timeout == Duration::ZERO {\n                return false;", "            if timeout == Duration::ZERO {\n                return true;", "C07.R4:Trigger")
